@@ -69,6 +69,13 @@ def check_case(case, stats=None):
         case['warm'] = {'input': case.get('input')}
         if stats is not None:
             stats.tags['after_earlier_execution_of_same_definition'] += 1
+    if case.get('salt', 0) % 4 == 1:
+        # one case in four: scheduler jobs delete their row in a later
+        # event than the one that invoked them (two transactions in the
+        # real scheduler): join refresh jobs are seen captured by others
+        case = dict(case, split_jobs=True)
+        if stats is not None:
+            stats.tags['job_rows_deleted_in_a_later_event'] += 1
     res = enginerun.run_case(case, observe_each=True)
     if res.start_error is not None or not res.quiescent:
         if stats:
